@@ -816,7 +816,8 @@ def run_C09(ctx):
         "message (every message and every error path is a teardown point because each stimulus ends its own connection); the set of open "
         "descriptors (fstat identity multiset from /proc/self/fd) before creating the endpoints and after dropping them is recorded and "
         "TLC requires: nothing leaked, nothing foreign closed, each delivered descriptor is one that was sent and delivered once, lent "
-        "descriptors still open; distinct = (engine, code/op, variant, descriptors, outcome)",
+        "descriptors still open; the functional stimuli of the request server and whole frontend/server sessions (handler outcomes that hand a "
+        "descriptor of the application's own to the library included) are accounted for in the same way; distinct = (engine, code/op, variant, descriptors, outcome)",
         ASSUME_COMMON + ["descriptors the application handler received by value are dropped by the recording handler (so they must be closed at teardown)",
                          "daemon part (FdFate.tla): descriptors of five kinds (eventfd, either end of a pipe, socket, memory file) sent for the kick/call/"
                          "error slots of the rings of a running daemon; after every letter each one is held by the daemon iff it occupies a slot "
@@ -1420,7 +1421,9 @@ def run_C15(ctx):
         "ADD_MEM_REG, SET_LOG_BASE with windows of 1,2,3,5,4096 bytes at offsets 0/4096 (too small to ample), guest-memory writes at offsets "
         "0,1,4095,end-1,end-4096 with lengths 0,1,2,4096,4097,8192,2^20, used-ring update by the backend} are explored by TLC and replayed on "
         "a real daemon; after each write the shared log file and its guard bytes are read and TLC compares the set of newly set bits with "
-        "the pages the write touched (bit gpa/4096, LSB first), no bit cleared, guards intact, too small a log rejected. Race clause: "
+        "the pages the write touched (bit gpa/4096, LSB first), no bit cleared, guards intact, too small a log rejected; every third write goes "
+        "through a buffer handle resolved before the log was installed, the window in force is re-sent with the same file, and a history "
+        "ending with SET_LOG_BASE is followed by a probe write into every region. Race clause: "
         "2..16 writer threads marking distinct pages of one log byte through the daemon's guest memory, every round checked for a lost bit "
         "(probabilistic: a non-atomic read-modify-write is caught only when two updates actually collide)",
         ASSUME_COMMON + ["the exploration level applies to the race clause: detection of a non-atomic bitmap update is probabilistic"], viol)
@@ -1557,7 +1560,8 @@ def run_C16(ctx):
         "shutdown and the thread count after drop; peers that close are also run as peers that only end their own direction and keep reading "
         "(they must see end-of-stream). serve() is run with the peer closing at every byte offset of a bodied and a body-less request. "
         "The backend's exit events are eventfd pairs in one half of the cases and the two ends of a pipe in the other; every drop of a "
-        "daemon runs on a helper thread (a join that never returns is an observation, not a hung harness).",
+        "daemon runs on a helper thread (a join that never returns is an observation, not a hung harness); the daemon object is also dropped "
+        "while its connection is still up (peer idle, mid-header, after a round trip): threads gone, peer sees end-of-stream.",
         ASSUME_COMMON + ["wait() runs under a 10 s watchdog; 'hang' / 'threads left' are reported only once the watchdog has expired and the threads involved are seen asleep in a system call",
                          "a peer closing with an unread reply (ECONNRESET) is mapped to Ok by the library by design and is not part of these schedules"],
         viol)
